@@ -10,6 +10,10 @@ CLAIMED = {
          "Exploration. Every byte string of length <=3 and the 10th-byte accept/reject frontier are enumerated completely through all LEB128 readers, all 2^16 values and all 256 size arguments are enumerated for the 16-bit/sized codecs; 64/128-bit values and longer strings are searched with boundary-biased generated cases in both build profiles. Absence of a counterexample outside the enumerated sub-domains is not established.",
          "Trusts the harness's own LEB128 bit-group model and byte encoder (harness/src/c09.rs, enc.rs); usize is 64-bit; over-long padded encodings may be refused by the reader but never mis-valued.",
          "DESIGN.md §4 C09"),
+ 'C10': ("model-based stateful testing: generated Reader operation histories against a cursor model, six-way differential across reader kinds, pointer-arithmetic view containment",
+         "Exploration. Generated histories (up to 40 operations over a pool of live readers, with clones, splits, truncations, drops in any order) are run on six reader kinds in lock-step against a cursor model; after every step every live reader must view exactly the model's byte range of the original buffer. Both build profiles; the thorough tier adds a libFuzzer/ASan campaign over the same interpreter.",
+         "Trusts the cursor model in harness/src/c10.rs and C09's LEB128 model; offset_from / range* are only called inside their documented preconditions; position after a failed read is resynchronised (may only shrink; all kinds must agree).",
+         "DESIGN.md §4 C10"),
 }
 NOT_YET = "check not built yet in this session (machinery is being extended property by property; see DESIGN.md §4)"
 
